@@ -411,8 +411,30 @@ func ruleCacheLock(rule string) func(r *Run) {
 					construct := fmt.Sprintf("%s:%s#%d release", FuncName(f), lc.kind, i)
 					okDefer := false
 					mismatch := false
+					// explicitly released on every path?
+					if okExp, _ := allPathsHit(f, lc.in, func(in ssa.Instruction) bool {
+						for _, u := range calls {
+							if u.in == in && u.kind == want && !u.def {
+								return true
+							}
+						}
+						return false
+					}); okExp {
+						r.Check(rule, construct, w.InstrPos(lc.in), true, "released explicitly on every path")
+						continue
+					}
 					for _, u := range calls {
 						if u.def && dominates(lc.in, u.in) {
+							// the deferred unlock belongs to the closest acquisition before it
+							closest := true
+							for _, other := range calls {
+								if other.in != lc.in && !other.def && (other.kind == "Lock" || other.kind == "RLock") && dominates(lc.in, other.in) && dominates(other.in, u.in) {
+									closest = false
+								}
+							}
+							if !closest {
+								continue
+							}
 							if u.kind == want {
 								okDefer = true
 							} else if u.kind == "Unlock" || u.kind == "RUnlock" {
@@ -511,6 +533,46 @@ func ruleCacheLock(rule string) func(r *Run) {
 					r.Check(rule, construct, w.InstrPos(in), ok, msg)
 				})
 			}
+		}
+		// atomicity: an element looked up in the index must be used inside the same critical section
+		for _, mth := range methods {
+			calls := lockCallsOn(mth, lockF)
+			n := 0
+			eachInstr(mth, func(in ssa.Instruction) {
+				lk, ok := in.(*ssa.Lookup)
+				if !ok || !unwrapAddr(lk.X).hasField(mapF) {
+					return
+				}
+				var elem ssa.Value = lk
+				if lk.CommaOk {
+					elem = extractOf(lk, 0)
+				}
+				if elem == nil {
+					return
+				}
+				for _, use := range *elem.Referrers() {
+					ui, isInstr := use.(ssa.Instruction)
+					if !isInstr {
+						continue
+					}
+					switch use.(type) {
+					case *ssa.DebugRef, *ssa.Phi:
+						continue
+					}
+					n++
+					released := false
+					for _, u := range calls {
+						if u.def || (u.kind != "Unlock" && u.kind != "RUnlock") {
+							continue
+						}
+						if canReach(in, u.in) && canReach(u.in, ui) {
+							released = true
+						}
+					}
+					r.Check(rule, fmt.Sprintf("%s:element used in the critical section of its lookup#%d", FuncName(mth), n), w.InstrPos(ui), !released,
+						map[bool]string{true: "lookup and use of the list element happen under one lock acquisition", false: "the element is looked up under one lock acquisition and used after the lock was released and re-acquired: another goroutine can evict/delete it in between (MoveToFront on a removed element is a silent no-op, the hit is reported for a key that is no longer cached)"}[!released])
+				}
+			})
 		}
 		// who-may-access: cachedRoutes / cacheNode fields only inside the methods and the constructor
 		for _, f := range w.Funcs {
